@@ -52,6 +52,28 @@ theorem C09_src_closed_forms :
    BlocksTie.linearAttenuator, BlocksTie.mirror, BlocksTie.perfectMirror, BlocksTie.thPhaseShifter,
    BlocksTie.splitter1x2Gen⟩
 
+/-- the rows the closed forms are written in are the documented pins: every traced block carries the documented pin names,
+each on its own matrix row, in the documented order (so "the coefficient from a0 to b0" of the theorems below is entry
+`(row of b0, column of a0)` of the generated matrix) -/
+theorem C09_src_pins :
+    Generated.Blocks.pins =
+      [("waveguide", [("a0", 0), ("b0", 1)]),
+       ("userWaveguide2", [("a0_m0", 0), ("b0_m0", 1), ("a0_m1", 2), ("b0_m1", 3)]),
+       ("beamSplitter", [("a0", 0), ("a1", 1), ("b0", 2), ("b1", 3)]),
+       ("beamSplitterT", [("a0", 0), ("a1", 1), ("b0", 2), ("b1", 3)]),
+       ("splitter1x2", [("a0", 0), ("b0", 1), ("b1", 2)]),
+       ("phaseShifter", [("a0", 0), ("b0", 1)]),
+       ("pushPull", [("a0", 0), ("b0", 1), ("a1", 2), ("b1", 3)]),
+       ("polRotFixed", [("a0_pol0", 0), ("a0_pol1", 1), ("b0_pol0", 2), ("b0_pol1", 3)]),
+       ("polRotVar", [("a0_pol0", 0), ("a0_pol1", 1), ("b0_pol0", 2), ("b0_pol1", 3)]),
+       ("attenuator", [("a0", 0), ("b0", 1)]),
+       ("linearAttenuator", [("a0", 0), ("b0", 1)]),
+       ("mirror", [("a0", 0), ("b0", 1)]),
+       ("perfectMirror", [("a0", 0)]),
+       ("thPhaseShifter", [("a0", 0), ("b0", 1)]),
+       ("splitter1x2Gen", [("a0", 0), ("b0", 1), ("b1", 2)])] := by
+  decide
+
 /-- Waveguide / thermal shifter / phase shifter: phase `2π n L / wl` (+ `π PS`), no reflection, symmetric, lossless -/
 theorem C09_waveguide (L n wl : ℝ) :
     waveguide L n wl 0 1 = Complex.exp (((2 * Real.pi * n * L / wl : ℝ) : ℂ) * Complex.I) ∧
